@@ -21,10 +21,10 @@ BUDGET = {"quick": 150, "thorough": 900}
 EXHAUSTIVE = {"quick": True, "thorough": True}
 RULE = ("Grid (complete): starttls argument {False, True, 1 (truthy, not the True singleton)} x server STARTTLS support {no,yes} x SASL announcement variant "
         "(same pre/post; pre PLAIN -> post LOGIN only; pre none -> post PLAIN; pre PLAIN -> post none; no SASL capability) x "
-        "authmech {None, PLAIN, LOGIN, OAUTHBEARER, unknown} x one fault (or none) at a handshake step: greeting "
+        "authmech {None, PLAIN, LOGIN, OAUTHBEARER, DIGEST-MD5, unknown} x one fault (or none) at a handshake step: greeting "
         "{refuse, BYE, NO, silence, close, garbage, missing OK}, STARTTLS {NO, BYE, silence, close, OK followed by an injected plaintext capability block}, TLS handshake "
         "{SSLError, cert error, timeout, EOF}, post-TLS capabilities {BYE, NO, silence, close, garbage, missing OK}, "
-        "AUTHENTICATE {NO, BYE, silence, close}, verdict {NO, BYE, wrong password}. Every cell runs the history: the 8 "
+        "AUTHENTICATE {NO, BYE, silence, close}, verdict {NO, BYE, wrong password, NO carrying valid final SASL data}; BYEs also with a REFERRAL response code. Every cell runs the history: the 8 "
         "script methods before connect; connect; the 8 script methods + capability; a second connect on the same object "
         "(refused / failing authentication / succeeding); the 8 script methods again. Then random histories (<= 8 calls "
         "over every public callable found by reflection). Non-trivial: a fault fired or a script method was called "
@@ -39,6 +39,7 @@ SCRIPT_METHODS = ["havespace", "listscripts", "getscript", "putscript", "checksc
 
 SASL_VARIANTS = [
     ("same", ["PLAIN", "LOGIN", "OAUTHBEARER"], None),
+    ("same-with-digest", ["DIGEST-MD5", "PLAIN"], None),
     ("pre-plain-post-login", ["PLAIN"], ["LOGIN"]),
     ("pre-none-post-plain", [], ["PLAIN"]),
     ("pre-plain-post-none", ["PLAIN"], []),
@@ -46,17 +47,17 @@ SASL_VARIANTS = [
     ("pre-plain-post-no-sasl-line", ["PLAIN"], False),
     ("pre-plain-post-bare-sasl-line", ["PLAIN"], "bare"),
 ]
-AUTHMECHS = [None, "PLAIN", "LOGIN", "OAUTHBEARER", "X-UNKNOWN"]
+AUTHMECHS = [None, "PLAIN", "LOGIN", "OAUTHBEARER", "X-UNKNOWN", "DIGEST-MD5"]
 FAULTS = [None] + \
-    [("greeting", k) for k in ("refuse", "bye", "no", "silent", "close", "garbage", "nook")] + \
-    [("starttls", k) for k in ("NO", "BYE", "silent", "close", "inject")] + \
+    [("greeting", k) for k in ("refuse", "bye", "no", "silent", "close", "garbage", "nook", "bye-referral")] + \
+    [("starttls", k) for k in ("NO", "BYE", "silent", "close", "inject", "BYE-referral")] + \
     [("tls", k) for k in ("sslerror", "certerror", "timeout", "eof")] + \
     [("postcaps", k) for k in ("bye", "no", "silent", "close", "garbage", "nook")] + \
-    [("authenticate", k) for k in ("NO", "BYE", "silent", "close")] + \
-    [("verdict", k) for k in ("NO", "BYE", "badpw")]
+    [("authenticate", k) for k in ("NO", "BYE", "silent", "close", "BYE-referral")] + \
+    [("verdict", k) for k in ("NO", "BYE", "badpw", "NO-sasl", "BYE-referral")]
 SECOND = ["refuse", "badpw", "ok", "greeting-close"]
 ST_VALUES = [False, True, 1]      # the starttls argument: 1 = a truthy value that is not the True singleton
-KIND = {"NO": F_NO, "BYE": F_BYE, "silent": F_SILENT, "close": F_CLOSE}
+KIND = {"NO": F_NO, "BYE": F_BYE, "silent": F_SILENT, "close": F_CLOSE, "BYE-referral": F_BYE, "NO-sasl": F_NO}
 
 
 def all_cells():
@@ -132,6 +133,9 @@ class Hooks:
     def greeting(self, conn):
         if self._is("greeting"):
             self.fired = True
+            if self.fault[1] == "bye-referral":
+                self.world.server.bye_with_referral = True
+                return "bye"
             return self.fault[1]
         return None
 
@@ -143,11 +147,15 @@ class Hooks:
                 self.world.server.inject_after_starttls = True
                 return None
             return KIND[self.fault[1]]
+        if self.fault is not None and self.fault[1].endswith("referral"):
+            self.world.server.bye_with_referral = True
         if verb == b"AUTHENTICATE" and self._is("authenticate"):
             self.fired = True
             return KIND[self.fault[1]]
-        if verb == "<auth-verdict>" and self._is("verdict") and self.fault[1] in ("NO", "BYE"):
+        if verb == "<auth-verdict>" and self._is("verdict") and self.fault[1] in KIND:
             self.fired = True
+            if self.fault[1] == "NO-sasl":
+                self.world.server.no_with_sasl_code = True
             return KIND[self.fault[1]]
         return None
 
@@ -243,6 +251,8 @@ def run(ch, config, res):
     srv = world.server
     srv.data_variation = False
     srv.cap_variation = True
+    with ch.scope("srvcfg"):
+        srv.digest_final_in_ok = ch.srv.flag("digest_final_in_ok", 1, 2)
     srv.scripts[b"x"] = b"keep;\r\n"
     hooks = Hooks(world)
     hooks.install()
@@ -315,6 +325,8 @@ def run(ch, config, res):
                     hooks.fault = arg["fault"]
                     hooks.fired = False
                     srv.inject_after_starttls = False
+                    srv.bye_with_referral = False
+                    srv.no_with_sasl_code = False
                     srv.cfg.users = {"user": "password"}
                     kw = {"starttls": ST_VALUES[st_arg], "authmech": AUTHMECHS[am]}
                     o, failure = do(client, "connect", ("user", "password"), kw)
